@@ -575,6 +575,7 @@ class ParseContext:
                         node_before is None
                         or (
                             dom_node_before is not None
+                            and isinstance(dom_node_before.tag, str)
                             and dom_node_before.tag.upper() == "BR"
                         )
                         or (
